@@ -127,6 +127,12 @@ func (s *fakeSender) Send(ctx context.Context, t el.EventType, payload interface
 	if h.sendFail[h.sendN] {
 		return el.Status{}, fmt.Errorf("injected send failure #%d", h.sendN)
 	}
+	if h.sendN%3 == 0 {
+		// delivered, with a warning (another pipeline of the composite's type failed, the thresholds were
+		// met): a success like any other
+		simrt.Probe("gate.send-succeeded-with-warnings")
+		return el.Status{Warnings: []error{fmt.Errorf("pipeline audit-copy: sink unavailable")}}, nil
+	}
 	return el.Status{}, nil
 }
 
